@@ -246,16 +246,20 @@ def run(tier, seed):
     sup = local_policy_supporters.InRamPolicySupporter(prob)
     pol = dp.PartiallySerializableDesignerPolicy(prob, sup, factory)
     out = []
+    pending = []
     for i, count in enumerate(steps):
       if i in restart_at:
         # a new policy object, as the Pythia service builds for every request; the study config now carries the state
         pol = dp.PartiallySerializableDesignerPolicy(sup.GetStudyConfig(), sup, factory)
       trials = sup.SuggestTrials(pol, count)
       out.append([sugg_key(t) for t in trials])
-      trials = list(trials)
-      rr.shuffle(trials)
-      for t in trials:
+      # trials finish out of order and across requests: some stay ACTIVE while later ones complete
+      pending += list(trials)
+      rr.shuffle(pending)
+      k = len(pending) if (order_seed % 2 == 0 or i == len(steps) - 1) else rr.randrange(0, len(pending) + 1)
+      for t in pending[:k]:
         t.complete(vz.Measurement({'m': objective(t.parameters)}))
+      pending = pending[k:]
     return out
 
   for si in range(4 if quick else 30):
